@@ -85,6 +85,10 @@ def run(rep):
              'attribute -> BrokenImplementation', floor=7)
     rep.rule('R17.4', 'the verified view is namesAndDescriptions(all=True) and '
              'that accessor follows __iro__ (C15 R15.1)', floor=2)
+    rep.rule('R17.5', 'the implementation signature that _incompat compares is '
+             'the one the function has: fromFunction derives positional / '
+             'required / optional / varargs / kwargs from the co_varnames '
+             'layout on every path (shared with C18 R18.1)', floor=8)
     rep.decline('the "cannot be introspected" cases of _verify_element '
                 '(builtins, descriptors, properties) beyond the branch '
                 'conditions of R17.3')
@@ -136,6 +140,10 @@ def run(rep):
               'the inherited view is built from __iro__ (sources %s)' % sorted(kinds),
               construct='iro', node=nd)
     # the recursion/loop passes through every ancestor: covered in C15
+
+    # ---- R17.5 ---------------------------------------------------------------
+    from .C18 import from_function_layout
+    from_function_layout(rep, imod, 'R17.5')
 
 
 def extra_coverage(rep):
